@@ -223,16 +223,20 @@ _c04 = [
     H("c04_rev_step_m4", 1200, "thorough", "same", "m=4"),
 ]
 SPECS["C04"] = dict(
-    level="model_checking", harnesses=_c04,
-    functions=["SetSketcher::sketch", "OptDensMinHash::sketch", "RevOptDensMinHash::sketch", "FYshuffle::{reset,next}", "rand::distr::Uniform<f64>::sample", "rand::distr::Uniform<usize>::sample"],
-    bounds={"quick": "see harness list", "thorough": "see harness list"},
-    outside="",
-    assumptions=[],
+    level="model_checking", harnesses=_c04, lemmas=[__import__("pmhv").lemma_wmul_allones],
+    functions=["SuperMinHash::sketch (f64, f32)", "SuperMinHash2::sketch (u64)", "SetSketcher::sketch (u16, u32)", "OptDensMinHash::sketch", "RevOptDensMinHash::sketch",
+               "FYshuffle::{reset,next}", "rand::distr::Uniform<f64|f32|usize|u64>::sample (vendored rand, rejection loop cut)", "NoHashHasher"],
+    bounds={"quick": "SuperMinHash f64 m in {2,3}; SuperMinHash2 m=2 (+ first item m=3); SetSketch u16 m=2 (a=16, ln b=1/2 concrete); OptDens m in {2,3}; RevOptDens m=3; one symbolic item per step, stream length unbounded by induction",
+            "thorough": "SuperMinHash f64/f32 m in {2,3,4}; SuperMinHash2 m in {2,3,4}; SetSketch u16 m in {2,3}, u32 m=2, and the a=20,b=1.001 instance; OptDens m in 1..=4; RevOptDens m in 2..=4"},
+    outside="sketch sizes above the listed ones; exact ties between DIFFERENT items (equal value on one position) are legitimately order dependent and are resolved by the code as 'later item wins' (SuperMinHash2, densified sketchers): the lemma is stated with the tie rule, set semantics then holds up to such ties (probability 2^-52..2^-64 per pair); SetSketch: the half-ulp boundary where the float subtraction 1 - log_b(x) rounds up onto an integer (there the code's two pruning tests differ by one unit) is excluded by assumption; chunking/sketch_slice for SuperMinHash*/SetSketch is a plain loop over sketch (read, not encoded); densified sketch_slice vs item-wise is c09_*_slice_*",
+    assumptions=["per-item generator = memoised oracle keyed by the item hash (models/rand_xoshiro); Exp1 = arbitrary finite f64 >= 0 that is a function of one draw (models/rand_distr); Lemire rejections excluded (models/rand)",
+                 "representation invariants written in the harness files (SuperMinHash: b[] = histogram of clamped integer parts, a_upper = its top, lazy-reset marker < item_rank; SuperMinHash2: b[] = histogram of levels; SetSketch: lower_k integral and <= min register; densified: nb_empty counts unpopulated bins which hold the initial pair): base case = C13 harnesses, preservation = these harnesses",
+                 "f64::ln stubbed by a memoised monotone NaN-free function with ln(x) > 0 iff x > 1 (SetSketch step only)",
+                 "SMT lemma for ranges 2^w-1 (hi word of x*(2^w-1) is x-1), proved by cvc5 on every run"],
     not_decided=[],
-    level_text="(in progress)",
-    level_note="(in progress)",
+    level_text="Bounded model checking of ONE sketch call from an arbitrary state satisfying the representation invariant, differential against a reference that recomputes the item's full contribution from the same per-item stream with no pruning: the new sketch is the position-wise join (min / lexicographic min / max / smaller-r) of the old sketch and a contribution that depends on the item only, and the invariant is kept. By induction over the stream this gives order independence, duplicate insensitivity and chunking independence for streams of any length, and 'stored hashes are hashes of streamed items'.",
+    level_note="Trusted: Kani/CBMC, the environment models, the invariants (checked inductive). Sizes bounded as listed; ties and one rounding boundary excluded as stated.",
     technique="Kani/CBMC bounded model checking, inductive step differential against an unpruned join reference",
-    disabled=True,
 )
 
 # --------------------------------------------------------------------------------------- C09
@@ -299,6 +303,10 @@ SPECS["C09"] = dict(
 
 # --------------------------------------------------------------------------------------- C02
 _c02 = [
+    H("c02_pmh3_step_m2_n3_w1", 1800, "quick", "ProbMinHash3::hash_item step lemma, weight 1", "m=2, 3 points, weight 1.0"),
+    H("c02_pmh3_step_m3_n4_w1", 2400, "thorough", "same", "m=3, 4 points, weight 1.0"),
+    H("c02_pmh2_step_m2_w1", 1800, "quick", "ProbMinHash2::hash_item step lemma, weight 1", "m=2, weight 1.0"),
+    H("c02_pmh2_step_m3_w1", 2400, "thorough", "same", "m=3, weight 1.0"),
     H("c02_pmh3_step_m2_n3", 1800, "quick", "ProbMinHash3::hash_item from an arbitrary state (tracker Inv): registers == min(old, best point per position of the item's unpruned race), signature follows the strict minimum, tracker Inv kept", "m=2, first 3 points of the item, weight = any 2^e (|e|<=40), states with max register <= 3/w"),
     H("c02_pmh3_step_m3_n4", 2400, "quick", "same", "m=3, 4 points"),
     H("c02_pmh3_step_m4_n5", 3600, "thorough", "same", "m=4, 5 points"),
@@ -309,8 +317,21 @@ _c02 = [
     H("c02_pmh2_step_m4", 3600, "thorough", "same", "m=4"),
     H("c02_pmh2_step_m3_w07", 2400, "thorough", "same, weight 0.7", "m=3"),
 ]
-SPECS["C02"] = dict(level="model_checking", harnesses=_c02, functions=[], bounds={}, outside="", assumptions=[], not_decided=[], level_text="x", level_note="x", technique="x", disabled=True)
-
+SPECS["C02"] = dict(
+    level="model_checking", harnesses=_c02,
+    functions=["ProbMinHash3::hash_item", "ProbMinHash2::hash_item", "MaxValueTracker::{update,get_value,get_max_value}", "FYshuffle::{reset,next}", "ExpRestricted01::sample (fast path)", "rand Uniform<usize>/<f64>::sample"],
+    bounds={"quick": "ProbMinHash3 m=2 (3 points per item), ProbMinHash2 m=2; weight 1.0; registers, signature, item and all generator outputs symbolic",
+            "thorough": "m in {2,3,4}; weights: every power of two 2^e with |e| <= 40 (symbolic), 3.0, 0.7"},
+    outside="ProbMinHash3a / 3aSha (their two-pass buffer is not encoded: IndexMap/HashMap + SHA-512 under CBMC are out of reach within the caps; 3 == 3a is therefore NOT decided), hash_wset / map entry points (plain loops over hash_item: read, not encoded), m > 4, weights that are not powers of two except the listed ones, items whose race lasts longer than N points (ProbMinHash3: states with max register > N/w), 'every position of a non-empty set is filled' (needs the race of the first item to reach all positions: unbounded under an arbitrary oracle), exact float ties between different items",
+    assumptions=["tracker invariant (C15)", "per-item generator = memoised oracle keyed by the item hash; Exp1 = arbitrary finite f64 >= 0 per draw",
+                 "ProbMinHash3 harnesses use the real ExpRestricted01 code with c1 = 1 (the lambda -> 0 limit: one draw per sample, value in [0,1)); its rejection loop is checked under C16",
+                 "ProbMinHash2: permutation generator in an arbitrary (dirty) reachable state before the call"],
+    not_decided=["ProbMinHash3 and ProbMinHash3a produce the same signature", "scaling all weights by a power of two (follows from the step lemma only for the power-of-two instances: registers scale exactly; not encoded as its own query)",
+                 "placeholder/foreign item clause beyond: a position changes only to the inserted id (step lemma) and keeps its register otherwise"],
+    level_text="Bounded model checking of one hash_item call (ProbMinHash3, ProbMinHash2) from an arbitrary state, differential against the item's unpruned race recomputed from the same stream: registers are exact position-wise minima, the signature follows the strict minimum, the stop rule never drops a winning point, the generator is consumed in the documented order, the tracker invariant is kept. Induction over the stream gives insertion-order, batching and re-insertion independence and position-wise composition of unions.",
+    level_note="Trusted: Kani/CBMC, environment models, tracker invariant. Bounded sizes/points/weights as listed; ProbMinHash3a/3aSha not encoded (stated).",
+    technique="Kani/CBMC bounded model checking, inductive step differential against an unpruned race reference",
+)
 
 # --------------------------------------------------------------------------------------- C16
 _XM1 = ["f64::exp_m1 -> arbitrary value (it only selects accept/reject in the last test, never the returned value)"]
@@ -361,6 +382,84 @@ _c11 = [
     H("c11_store_m2_l1", 900, "quick", "OrdMinHashStore::update_with_maxtracker from any sorted store: pair enters iff it beats the l-th smallest value of the position; lists stay sorted; other positions untouched; tracker slot == l-th value", "m=2,l=1"),
     H("c11_store_m2_l2", 1200, "quick", "same", "m=2,l=2"),
     H("c11_store_m3_l3", 2400, "thorough", "same", "m=3,l=3"),
-    H("c11_hashset_perm_l1_m2", 3600, "thorough", "ProbOrdMinHash2::hash_set, l=1: signature invariant under swapping a two-element sequence", "m=2, |seq|=2"),
+    H("c11_hashset_perm_l1_m2", 3600, "quick", "ProbOrdMinHash2::hash_set, l=1: signature invariant under swapping a two-element sequence (all generator outputs symbolic)", "m=2, |seq|=2, concrete labels"),
+    H("c11_hashset_perm_l1_m3", 3600, "thorough", "same", "m=3, |seq|=2"),
+    H("c11_hashset_perm_rep_m2", 3600, "thorough", "hash_set l=1 with a repeated element: [x,x,y], [y,x,x], [x,y,x] give the same signature", "m=2, |seq|=3"),
+    H("c13_hashset_dirty_m2_l1", 3600, "thorough", "hash_set is self-clearing: an instance that hashed another sequence before == a fresh instance (with other RandomState keys)", "m=2, l=1"),
+    H("c13_hashset_dirty_m2_l2", 3600, "thorough", "same", "m=2, l=2"),
 ]
-SPECS["C11"] = dict(level="model_checking", harnesses=_c11, functions=[], bounds={}, outside="", assumptions=[], not_decided=[], level_text="x", level_note="x", technique="x", disabled=True)
+SPECS["C11"] = dict(
+    level="model_checking", harnesses=_c11,
+    functions=["OrdMinHashStore::{update_with_maxtracker, reset, create_signature}", "ProbOrdMinHash2::hash_set", "MaxValueTracker", "FYshuffle", "std HashMap (concrete keys)", "wyhash"],
+    bounds={"quick": "store step m=2, l in {1,2}; hash_set l=1, m=2, two distinct elements in both orders", "thorough": "store step m=3,l=3; hash_set m=3; repeated element (3 orders); dirty-vs-fresh instance l in {1,2}"},
+    outside="sequences longer than 3, m > 3, l > 2 end to end; element labels and RandomState keys are concrete (the per-pair generator is an oracle, so labels only need to be distinct); ThreadRng fields are never-read placeholders",
+    assumptions=["per-(element, occurrence, seed) generator = memoised oracle keyed by the 256-bit seed; Exp1 arbitrary finite >= 0",
+                 "store invariant: per position the l values ascend and the tracker slot equals the l-th value"],
+    not_decided=[],
+    level_text="Bounded model checking: (a) store level, one offered pair from any sorted store: it enters a position iff it beats that position's l-th smallest value, lists stay sorted, other positions untouched, tracker exact; (b) end to end at tiny size with every generator output symbolic: the l=1 signature is invariant under permutation of the sequence (also with a repeated element), and a used instance equals a fresh one with different per-process hash keys (C13 self-clearing, C12).",
+    level_note="Trusted: Kani/CBMC, oracle RNG models. Tiny sizes; concrete labels; instance built by a struct literal because ProbOrdMinHash2::new reaches OS entropy (ThreadRng), which is what C12 part 2 examines.",
+    technique="Kani/CBMC bounded model checking, step lemma + two-run differential with an oracle RNG model",
+)
+
+# --------------------------------------------------------------------------------------- C20
+def _c20(prop, spec, tier, seed, args):
+    import check_taint
+    return check_taint.run_c20(prop, spec, tier, seed, args)
+
+
+SPECS["C20"] = dict(
+    level="other", custom=_c20, engine_name="mir-smt", harnesses=[],
+    level_text="Error path only: an SMT entailment query over the data-flow implications of the current tree's MIR shows that the Result of parsing parameters.json never reaches an unwrap/expect/unwrap_or* call in reload_json (so a torn file yields Err: no abort, no substituted parameters); a reached sink is confirmed natively on every prefix of a dumped file before it is reported.",
+    level_note="Trusted: rustc MIR dump, lib/smt_taint.py (flow-insensitive may-analysis over assignments, calls, &mut arguments), z3/cvc5, serde_json's contract that a strict prefix of a JSON object is an error. The value round-trip clause of C20 is NOT decided.",
+    technique="MIR data-flow implications, entailment decided by z3 and cvc5; native prefix enumeration only as replay",
+)
+
+
+# --------------------------------------------------------------------------------------- C12
+def _c12(prop, spec, tier, seed, args):
+    import check_taint
+    return check_taint.run_c12(prop, spec, tier, seed, args)
+
+
+_c12h = [
+    H("c12_smh_f64_m2", 1800, "quick", "two SuperMinHash<f64> built by new(): same item -> every field bit-identical", "m=2, one symbolic item"),
+    H("c12_smh_f32_m3", 2400, "thorough", "same, f32", "m=3"),
+    H("c12_smh2_m2", 1800, "thorough", "two SuperMinHash2: same item -> identical", "m=2"),
+    H("c12_optdens_m2", 1800, "quick", "two OptDensMinHash: same item -> identical bins", "m=2"),
+    H("c12_revdens_m2", 1800, "thorough", "two RevOptDensMinHash: same item -> identical bins", "m=2"),
+    H("c12_pmh2_m2", 1800, "quick", "two ProbMinHash2: same weighted item -> identical signature and registers", "m=2, weight any 2^e"),
+]
+SPECS["C12"] = dict(
+    level="model_checking", custom=_c12, harnesses=_c12h,
+    functions=["part 1 (Kani): SuperMinHash::{new,sketch}, SuperMinHash2::{new,sketch}, OptDensMinHash/RevOptDensMinHash::{new,sketch,end_sketch}, ProbMinHash2::{new,hash_item}",
+               "part 2 (MIR data flow): every function of the crate; sinks = fields built by every new/default, seed arguments of every seed_from_u64/from_seed/with_seed call"],
+    bounds={"quick": "part 1: m=2, one symbolic item per sketcher; part 2: whole crate, no bound", "thorough": "part 1 adds f32 / SuperMinHash2 / RevOptDens instances"},
+    outside="thread interleavings and process launches are not explored by a solver: 'concurrent instances / other processes' is reduced to 'no entropy source (OS randomness, ThreadRng, RandomState::new, time, addresses, environment) reaches a constructor field or a generator seed' (part 2) and confirmed natively (2 processes x (2 sequential + 2 concurrent instances)) only when part 2 reports a flow; flows through statics / raw pointers / interior mutability are not seen by part 2",
+    assumptions=["part 1: per-item generators are oracles shared by both instances (a function of the seed): instance-specific state can only differ through code that Kani would report as an unsupported foreign call (OS entropy)",
+                 "part 2: flow-insensitive may-analysis over assignments, calls and &mut arguments"],
+    not_decided=[],
+    level_text="Part 1: bounded model checking (self-composition) of two instances built by new() on the same symbolic input. Part 2: SMT entailment over the MIR data-flow implications of the whole crate: no entropy source reaches a field built by any constructor or a seed passed to any generator; a reached sink is confirmed by a native differential run across instances, threads and processes before it is reported.",
+    level_note="Trusted: Kani/CBMC, oracle RNG models, rustc MIR dump, lib/smt_taint.py, z3/cvc5. Concurrency/process clause reduced to absence of entropy flow (stated).",
+    technique="Kani self-composition + MIR data-flow entailment decided by z3/cvc5",
+)
+
+
+# --------------------------------------------------------------------------------------- C03
+_c03 = [
+    H("c03_single_f64_m2", 1800, "thorough", "fresh SuperMinHash<f64>, one item: position p_j holds j + r_j, r_j = j-th uniform draw, integer parts pairwise distinct, all positions written, invariant holds", "m=2"),
+    H("c03_single_f64_m3", 1800, "quick", "same", "m=3"),
+    H("c03_single_f64_m4", 2400, "thorough", "same", "m=4"),
+    H("c03_single_f32_m3", 1800, "quick", "same, f32", "m=3"),
+    H("c03_single_f32_m4", 2400, "thorough", "same, f32", "m=4"),
+]
+SPECS["C03"] = dict(
+    level="model_checking", harnesses=_c03,
+    functions=["SuperMinHash::{new, sketch}", "rand Uniform<f64|f32>::sample, Uniform<usize>::sample"],
+    bounds={"quick": "m=3 (f64, f32), one symbolic item, every generator output", "thorough": "m in {2,3,4}"},
+    outside="the two expectation clauses (E[fraction of equal positions] = J, MSE <= J(1-J)/m) are NOT decided: a solver decides forall/exists over generator outputs, not their measure; SuperMinHash2's single-item clause is c04_smh2_first_m3 (all positions carry the item); uniformity of the permutation is reduced to C17's lemmas (the slot draws here are rand's Uniform<usize>(j, m), a bijection from accepted draws to slots by Lemire's method - not re-proved)",
+    assumptions=["generator = oracle", "Lemire rejections excluded"],
+    not_decided=["expected fraction of equal positions equals J", "MSE at most J(1-J)/m", "the permutation is uniformly distributed (probability statement)"],
+    level_text="Single-item clause only: for every generator output, a fresh SuperMinHash sketching one item stores j + r_j on position p_j of a permutation of 0..m (integer parts pairwise distinct, including the case where r + j rounds up), with r_j the j-th uniform draw of the item's stream, so fractional parts of distinct positions come from distinct draws. The consistency half of unbiasedness is C04/C05's join lemma.",
+    level_note="Trusted: Kani/CBMC, oracle model. The expectation clauses of C03 are not decided (stated in evidence).",
+    technique="Kani/CBMC bounded model checking with an oracle RNG model",
+)
